@@ -45,7 +45,7 @@ def run_job(engine, job):
         res['obligations'] += 1
         if st.faulted:
             what = [e for e in st.events if e[0] == 'fault'][0]
-            locus = {'open refused': 'open', 'write refused': 'write', 'close failed': 'close'}[what[1]]
+            locus = {'open refused': 'open', 'write refused': 'write', 'write accepted in part': 'write', 'close failed': 'close'}[what[1]]
             if out == 0:
                 m = eng.sc.check(st.pc)
                 rp = replay_of(eng, st, m, job, files)
